@@ -310,3 +310,62 @@ func ZZ_C07_aggregateAcrossTransition() {
 	}
 	cancel()
 }
+
+func init() { zz.Register("ZZ_C05_stuckSyncRecovers", ZZ_C05_stuckSyncRecovers) }
+
+// ZZ_C05_stuckSyncRecovers: the manager loop behind a lagging node. One of its peers ACCEPTS the sync stream and
+// then never sends anything (a black-holing partition, a one-way link); another one is healthy and ahead. A new
+// request arrives with every tick. A sync that made no progress for factor*period is cancelled and restarted,
+// and the restarts get past the silent peer: within a few of them the node has caught up. The order in which a
+// sync tries its peers comes from the random source, taken here as a FAIR sequence (the j-th draw is the
+// identity rotated by j; param rotating_peer_order): with a fair source no peer can be first forever.
+func ZZ_C05_stuckSyncRecovers() {
+	nw := zzNewNet(3, 2)
+	head := &common.Beacon{Round: 5, Signature: []byte{5, 5}}
+	base := &zzBase{}
+	cbs := zzStack(nw, base, head)
+	clk := zzfake.NewClock(zzGenesis + 1000)
+	good := zzHonestChain(nw, head, 3)
+	silent := zz.Choose("silent_peer", 2)
+	addrs := []string{"peer0.example:1", "peer1.example:1"}
+	client := &zzfake.Client{Clock: clk}
+	asked := []int{0, 0}
+	client.SyncFn = func(ctx context.Context, p net.Peer, in *proto.SyncRequest) (chan *proto.BeaconPacket, error) {
+		i := 0
+		if p.Address() == addrs[1] {
+			i = 1
+		}
+		asked[i]++
+		if i == silent {
+			return make(chan *proto.BeaconPacket), nil // accepts the stream, sends nothing, never closes it
+		}
+		ch := make(chan *proto.BeaconPacket, len(good))
+		for _, b := range good {
+			if b.Round >= in.GetFromRound() {
+				ch <- &proto.BeaconPacket{Round: b.Round, PreviousSignature: b.PreviousSig, Signature: b.Signature, Metadata: &proto.Metadata{BeaconID: nw.group.ID}}
+			}
+		}
+		close(ch)
+		return ch, nil
+	}
+	sm := zzSyncManager(nw, cbs, base, client, clk, "self.example:1")
+	ctx, cancel := context.WithCancel(context.Background())
+	sm.ctx, sm.ctxCancel = ctx, cancel
+	go sm.Run()
+	zz.Quiesce()
+	peers := []net.Peer{&zzPeer{addrs[0]}, &zzPeer{addrs[1]}}
+	target := good[len(good)-1].Round
+	cycles := zz.Param("cycles", 4)
+	for c := 0; c < cycles; c++ {
+		sm.SendSyncRequest(context.Background(), target, peers)
+		zz.Quiesce()
+		// nothing moves for longer than the expiry of a sync
+		clk.Advance(time.Duration(syncExpiryFactor+1) * nw.group.Period)
+		zz.Quiesce()
+	}
+	last, err := cbs.Last(context.Background())
+	zz.Assert("stuck_sync_gets_past_the_silent_peer", err == nil && last != nil && last.Round == target)
+	zz.Assert("the_healthy_peer_was_asked", asked[1-silent] >= 1)
+	cancel()
+	zz.Quiesce()
+}
